@@ -73,16 +73,21 @@ def commitConfig (s : Node) : Node :=
 def revertConfig (s : Node) : Node :=
   { s with configs := { s.configs with latest := s.configs.committed } }
 
+/-- `Raft.setCommitIndex` after `commitConfig`: a leader that is no longer a voter steps down. -/
+def stepDownIfNotVoter (s : Node) : Node :=
+  if s.role = .leader ∧ !s.configs.latest.isVoter s.nid then (s.setRole .follower).setLeader 0 else s
+
+/-- `Raft.setCommitIndex` after `commitConfig`: a node that is no longer part of the cluster closes itself. -/
+def closeIfRemoved (s : Node) : Node :=
+  if s.shutdownOnRemove ∧ !s.configs.latest.has s.nid then s.doClose "nodeRemoved" else s
+
+def afterConfigCommit (s : Node) : Node := s.stepDownIfNotVoter.closeIfRemoved
+
 /-- `Raft.setCommitIndex`; second component: configCommitted. -/
 def setCommitIndexR (s : Node) (i : Nat) : Node × Bool :=
-  let s := (s.withCommitIndex (i))
-  if !s.configs.isCommitted ∧ s.configs.latest.index ≤ s.commitIndex then
-    let s := s.commitConfig
-    let s := if s.role = .leader ∧ !s.configs.latest.isVoter s.nid
-             then (s.setRole .follower).setLeader 0 else s
-    let s := if s.shutdownOnRemove ∧ !s.configs.latest.has s.nid then s.doClose "nodeRemoved" else s
-    (s, true)
-  else (s, false)
+  if !s.configs.isCommitted ∧ s.configs.latest.index ≤ i then
+    ((s.withCommitIndex i).commitConfig.afterConfigCommit, true)
+  else (s.withCommitIndex i, false)
 
 /-! ## leader (leader.go, changeconfig.go) -/
 
@@ -128,15 +133,21 @@ def beginFinishedRounds (s : Node) : Node :=
           else r
       | none => r) }))
 
-/-- `leader.majorityMatchIndex`. -/
+/-- The match index the leader attributes to each VOTER of the latest configuration: its own last
+log index for itself, the replication status' matchIndex for the others (non-voters do not occur). -/
+def voterMatches (s : Node) : List Nat :=
+  (s.configs.latest.nodes.filter (·.voter)).map (fun n =>
+    if n.id = s.nid then s.lastLogIndex else ((s.findRepl? n.id).map (·.matchIndex)).getD 0)
+
+/-- `leader.majorityMatchIndex`; second component: no nil dereference / index out of range. -/
 def majorityMatchIndex (s : Node) : Nat × Bool :=
   if s.ldr.numVoters = 1 ∧ s.ldr.node.voter then (s.lastLogIndex, true)
   else
     let vs := s.configs.latest.nodes.filter (·.voter)
     let missing := vs.any (fun n => n.id != s.nid && (s.findRepl? n.id).isNone)
-    let ms := vs.map (fun n => if n.id = s.nid then s.lastLogIndex else ((s.findRepl? n.id).map (·.matchIndex)).getD 0)
-    let sorted := ms.mergeSort (fun a b => decide (a ≥ b))
-    let quorum := vs.length / 2 + 1
+    let ms := s.voterMatches
+    let sorted := ms.mergeSort geB
+    let quorum := ms.length / 2 + 1
     ((sorted[quorum - 1]?).getD 0, !missing && s.configs.latest.nodes.length > 0)
 
 /-- Split the leader queue as `leader.applyCommitted` does. -/
@@ -154,23 +165,28 @@ def applyCommittedL (s : Node) : Node :=
   let s := (s.withLdr ({ s.ldr with queue := sp.2 }))
   s.fsmApply sp.1
 
-/-- Round bookkeeping of `checkConfigAction` ("start or stop rounds", "finish round if completed,
-start new round if necessary"); second component: return early. -/
+/-- "start or stop rounds" of `checkConfigAction`. -/
+def startRound (lastLogIndex : Nat) (action : Nat) (st : Repl) : Repl :=
+  if action ≠ actPromote then { st with round := none }
+  else match st.round with
+    | none => { st with round := some { ordinal := 1, lastIndex := lastLogIndex } }
+    | some _ => st
+
+/-- "finish round if completed, start new round if necessary" for a round `rd`; second component: return early. -/
+def finishRound (lastLogIndex : Nat) (st : Repl) (rd : Round) : Repl × Bool :=
+  let rd := if !rd.finished ∧ st.matchIndex ≥ rd.lastIndex then { rd with finished := true } else rd
+  if !rd.finished then ({ st with round := some rd }, true)
+  else if lastLogIndex > st.matchIndex ∧ rd.aged then
+    ({ st with round := some { rd with ordinal := rd.ordinal + 1, lastIndex := lastLogIndex,
+                                       finished := false, aged := false } }, true)
+  else ({ st with round := some rd }, false)
+
+/-- Round bookkeeping of `checkConfigAction`; second component: return early. -/
 def roundStep (lastLogIndex : Nat) (action : Nat) (st : Repl) : Repl × Bool :=
-  let st :=
-    if action ≠ actPromote then { st with round := none }
-    else match st.round with
-      | none => { st with round := some { ordinal := 1, lastIndex := lastLogIndex } }
-      | some _ => st
+  let st := startRound lastLogIndex action st
   match st.round with
   | none => (st, false)
-  | some rd =>
-    let rd := if !rd.finished ∧ st.matchIndex ≥ rd.lastIndex then { rd with finished := true } else rd
-    if !rd.finished then ({ st with round := some rd }, true)
-    else if lastLogIndex > st.matchIndex ∧ rd.aged then
-      ({ st with round := some { rd with ordinal := rd.ordinal + 1, lastIndex := lastLogIndex,
-                                         finished := false, aged := false } }, true)
-    else ({ st with round := some rd }, false)
+  | some rd => finishRound lastLogIndex st rd
 
 /-- "perform configAction" of `checkConfigAction`: the configuration to propose, if any. -/
 def actionConfig (latestIndex : Nat) (config : Config) (n : CNode) (action : Nat) (st : Repl) : Option Config :=
@@ -425,19 +441,24 @@ def leaderInit (s : Node) : Node :=
   let s := checkConfigActions (fuelFor 0) s 0 s.configs.latest
   storeEntry (fuelFor 1) s [{ typ := etNop }]
 
-/-- `leader.release`. -/
-def leaderRelease (s : Node) : Node :=
-  let s :=
-    if s.ldr.transfer.active then
-      s.transferReply (if s.term > s.ldr.transfer.term then "ok"
-                       else if s.isClosed then "plain:serverClosed" else "plain:quorumUnreachable")
-    else s
+/-- the result `leader.release` gives to a transfer in progress -/
+def releaseResult (s : Node) : String :=
+  if s.term > s.ldr.transfer.term then "ok"
+  else if s.isClosed then "plain:serverClosed" else "plain:quorumUnreachable"
+
+/-- `leader.release` after the transfer was answered: stop replications, answer pending entries and
+waitForStableConfig tasks. -/
+def leaderReleaseRest (s : Node) : Node :=
   let s := if s.leader = s.nid then s.setLeader 0 else s
   let err := if s.isClosed then "plain:serverClosed" else s.notLeader true
   let s := s.ldr.queue.foldl (fun s q => s.reply q.task err) s
   let s := s.ldr.waitStable.foldl (fun s t => s.reply t err) s
   (s.withLdr ({ node := s.ldr.node, numVoters := s.ldr.numVoters, startIndex := s.ldr.startIndex,
                     removeLTE := s.ldr.removeLTE }))
+
+/-- `leader.release`. -/
+def leaderRelease (s : Node) : Node :=
+  (if s.ldr.transfer.active then s.transferReply s.releaseResult else s).leaderReleaseRest
 
 /-! ## candidate.go -/
 
